@@ -283,6 +283,22 @@ func init() {
 				},
 			})
 		}
+		// the lease bookkeeping must land on the message that was handed out even when
+		// an earlier candidate of the same batch is passed over (retired into the
+		// dead-letter topic by this very pull)
+		out = append(out, &hist.Scenario{
+			ID: "C04/batch-with-a-retired-candidate", Prop: "C04", Depth: d(tier, 6, 7), Drain: true,
+			Cfg: model.Cfg{Topics: []string{"T0", "TD"}, Subs: []model.SubCfg{
+				{Name: "S0", Topic: "T0", DLTopic: "TD", MaxAttempts: 1, Retention: 100 * 24 * time.Hour},
+				{Name: "SD", Topic: "TD"},
+			}},
+			Alphabet: []model.Op{
+				pub1("T0", "", 0), pubN("T0", "", ""),
+				pull("S0", 1), pull("S0", 10), pull("SD", 10),
+				modack("S0", "oldest", 0), ack("S0", "oldest"),
+				tick("lease-"), tick("lease+"),
+			},
+		})
 		// (b) saturation skeleton: consecutive expire-and-redeliver rounds up to and
 		// beyond the attempt at which min*1.1^n reaches maxBackoff (n = 43 for the
 		// defaults), with every single extra operation inserted at every position
@@ -501,7 +517,9 @@ func init() {
 			tick("lease+"), tick("+1h"), tick("ret+"),
 		}, jobs(0, 1, "prune-completed-deliveries", "prune-expired-deliveries", "prune-completed-messages")...)
 		a = append(a, jobs(0, 100, "prune-completed-deliveries", "prune-expired-deliveries", "prune-completed-messages")...)
-		a = append(a, jobs(time.Hour, 100, "prune-completed-deliveries", "prune-completed-messages")...)
+		// (S1's retention of 40 min is SHORTER than this age threshold: an age
+		// threshold must never reach into the future of a live delivery)
+		a = append(a, jobs(time.Hour, 100, "prune-completed-deliveries", "prune-expired-deliveries", "prune-completed-messages")...)
 		b := append([]model.Op{
 			pub1("T0", "", 0),
 			pull("S0", 10), ack("S0", "all"), pull("SD", 10),
